@@ -1894,6 +1894,9 @@ class Model:
         )
         self._insert_id(name=name, ctx="surrogate")
 
+        # The model keeps its own object: the overrides below must not reach the
+        # object the caller holds (it may be part of this or another model already)
+        surrogate = copy.copy(surrogate)
         # Update surrogate if necessary
         if args is not None:
             surrogate.args = args
@@ -1939,8 +1942,10 @@ class Model:
             raise KeyError(msg)
 
         old_outputs = list(self._surrogates[name].outputs)
-        if surrogate is None:
-            surrogate = self._surrogates[name]
+        # a passed object is copied: the overrides below must not reach the caller's
+        surrogate = (
+            self._surrogates[name] if surrogate is None else copy.copy(surrogate)
+        )
 
         # Reject the update before the surrogate or any id is changed
         self._check_new_ids(
